@@ -284,6 +284,9 @@ func singleStore(a *ssa.Alloc) ssa.Value {
 				val = s.Val
 			}
 		case *ssa.UnOp, *ssa.DebugRef:
+		case *ssa.FieldAddr, *ssa.IndexAddr:
+			// fields of the variable are read or updated in place: the variable is
+			// still the one initialised by the single whole-value store
 		case *ssa.MakeClosure:
 			// captured by a closure: still a single-assignment variable when the
 			// closure never stores to the variable itself
@@ -354,7 +357,7 @@ func closureLeavesVar(mc *ssa.MakeClosure, a *ssa.Alloc) bool {
 		}
 		for _, r := range *fv.Referrers() {
 			switch x := r.(type) {
-			case *ssa.UnOp, *ssa.DebugRef:
+			case *ssa.UnOp, *ssa.DebugRef, *ssa.FieldAddr, *ssa.IndexAddr:
 			case *ssa.Store:
 				if x.Addr == fv {
 					return false
